@@ -2,7 +2,10 @@
 EXTENDS Reader, TLC, Json, IOUtils
 NMax == atoi(IOEnv.VN)
 Seqs == {<<>>, <<65>>, <<65, 67>>, <<65, 67, 71>>, <<65, 67, 71, 84, 65>>}
-RecSet == {[id |-> i, desc |-> d, seq |-> s] : i \in 1..2, d \in 0..1, s \in Seqs}
+\* up to 2 records: 2 ids x description or not x 5 sequences; 3 records: a smaller record set keeps the space at ~20k scenarios
+SeqsSmall == {<<>>, <<65>>, <<65, 67, 71>>}
+RecSet == IF NMax <= 2 THEN {[id |-> i, desc |-> d, seq |-> s] : i \in 1..2, d \in 0..1, s \in Seqs}
+          ELSE {[id |-> 1, desc |-> d, seq |-> s] : d \in 0..1, s \in SeqsSmall}
 RecLists == UNION {[1..n -> RecSet] : n \in 0..NMax}
 NLines(s) == Len(Serialise(s.recs, s.fastq, s.wrap))
 Fasta == {[recs |-> r, fastq |-> FALSE, wrap |-> w, cut |-> c] : r \in RecLists, w \in 0..3, c \in 0..3}
